@@ -241,3 +241,89 @@ def c17_r8(ctx):
                     else:
                         ctx.ok(f"{fi.qualname} -> {t.qualname}: {p} <- settings.{attr}", fi.loc(c))
     return n
+
+
+# ====================================================================== parameter defaults
+_DEFAULTS = None
+_ANCHORS = None
+
+
+def _defaults_table() -> Dict[str, Dict[str, str]]:
+    global _DEFAULTS
+    if _DEFAULTS is None:
+        import json
+        import os
+        _DEFAULTS = json.load(open(os.path.join(os.path.dirname(os.path.dirname(os.path.abspath(__file__))), "defaults.json")))
+    return _DEFAULTS
+
+
+def _anchor_files(prop: str) -> List[str]:
+    """source files the property is anchored in (properties.jsonl), as fnmatch patterns"""
+    global _ANCHORS
+    if _ANCHORS is None:
+        import json
+        import os
+        import re
+        _ANCHORS = {}
+        root = os.path.dirname(os.path.dirname(os.path.dirname(os.path.abspath(__file__))))
+        for line in open(os.path.join(root, "properties.jsonl")):
+            d = json.loads(line)
+            files = set(f for f in d.get("anchors", {}).get("files", []) if isinstance(f, str))
+            mech = d.get("anchors", {}).get("mechanism")
+            for m_ in mech if isinstance(mech, list) else []:
+                w = m_.get("where", "") if isinstance(m_, dict) else ""
+                files |= set(re.findall(r"ariadne_codegen/[\\w/\\*\\.]+\\.py", w))
+            _ANCHORS[d["id"]] = sorted(files)
+    return _ANCHORS.get(prop, [])
+
+
+@rule("C04.R16", "a parameter default that some call site relies on keeps its confirmed value (a flipped default silently reconfigures every caller that omits the argument)",
+      min_instances=1, also=["C01", "C02", "C03", "C05", "C06", "C07", "C08", "C09", "C10", "C11", "C12", "C13", "C14", "C15", "C16", "C17", "C18", "C19"])
+def c04_r16(ctx):
+    import fnmatch
+    repo = ctx.repo
+    cg = _cg(repo)
+    table = _defaults_table()
+    pats = _anchor_files(ctx.prop)
+    # which (function, parameter) pairs are omitted by at least one call site of the repository
+    omitted: Dict[Tuple[str, str], List[Tuple[FuncInfo, ast.Call]]] = {}
+    for fi in repo.all_functions():
+        for c, targets in cg.callees(fi):
+            if any(isinstance(a_, ast.Starred) for a_ in c.args) or any(k.arg is None for k in c.keywords):
+                continue
+            for t in targets:
+                if t.key not in table:
+                    continue
+                ps, kwo = _params(t)
+                given = {k.arg for k in c.keywords} | set(ps[:len(c.args)])
+                for p in table[t.key]:
+                    if p not in given:
+                        omitted.setdefault((t.key, p), []).append((fi, c))
+    n = 0
+    for fkey, params in sorted(table.items()):
+        short, q = fkey.split(":")
+        m = repo.modules.get("ariadne_codegen." + short) or repo.modules.get(short)
+        fi = m.functions.get(q) if m is not None else None
+        if fi is None:
+            continue            # moved / removed functions are the business of the rules anchored in them
+        if ctx.prop != "C04" and pats and not any(fnmatch.fnmatch(fi.module.relpath, p_) for p_ in pats):
+            continue
+        a = fi.node.args
+        pos = a.posonlyargs + a.args
+        cur = {p.arg: str(norm(dv)) for p, dv in zip(pos[len(pos) - len(a.defaults):], a.defaults)}
+        cur.update({p.arg: str(norm(dv)) for p, dv in zip(a.kwonlyargs, a.kw_defaults) if dv is not None})
+        public_api = fi.module.short.startswith("client_generators.dependencies") and not fi.node.name.startswith("_")
+        for p, want in sorted(params.items()):
+            users = omitted.get((fkey, p), [])
+            if not users and not public_api:
+                continue        # every caller passes it: the default is dead
+            n += 1
+            got = cur.get(p, "<no default>")
+            if got == want:
+                ctx.ok(f"{fi.qualname}({p}={want}) - relied on by {len(users)} call site(s)" + (" and by users of the shipped client" if public_api else ""), fi.loc())
+            else:
+                who = users[0][0].qualname if users else "callers of the shipped runtime API"
+                ctx.fail(key(fi, f"default {p}"), f"{fi.qualname}: default of `{p}` is {got}, confirmed value {want}; {len(users)} call site(s) omit the argument (e.g. {who}) and now run with the other value", fi.loc())
+    if n == 0:
+        ctx.ok("no relied-upon parameter default in the files this property is anchored in")
+    return n
